@@ -1,6 +1,6 @@
 """C05 -- pure-Python and compiled quoters are interchangeable."""
 from ..core import MachineryFailure, load_records, run_driver, validate_shards
-from .quoterlevel import run_quoter_level, trace_cfg
+from .quoterlevel import run_quoter_level, run_unquoter_steps, trace_cfg
 
 FINISH = dict(rule="R1: TLC enumerates all texts over CharCore/TokenCore/UnqTokens up to the stated length and checks "
                    "QuotePy = QuoteC (Level I); R2: every enumerated text is run through the real _quoting_py and "
@@ -24,6 +24,7 @@ def run(out, sc, tier, seed):
     res = model_check("QuoterSteps", step_cfg(3, "SmallCore", ["Inv_PyClosedForm"], ["RewindBad <- One"]), sc.work)
     out.add_model("QuoterSteps[negative: rewind 1 instead of 2]", res, expect_violation="Inv_PyClosedForm",
                   what="non-vacuity: an off-by-one in the malformed-escape rewind is found by TLC")
+    run_unquoter_steps(out, sc, tier)
     run_quoter_level(out, sc, tier, seed, "C05", unq=True)
     # outputs crossing the compiled writer's 8 KiB growth boundaries (static buffer -> malloc -> realloc)
     keep = 0.02 if tier == "quick" else 1.0
